@@ -1014,6 +1014,118 @@ example : ((«open» demoMalformedDisk).map fun r =>
     some (.err, .err, .some [1, 2, 3]) := by decide
 example : («open» ⟨[⟨0, 2⟩], 0, fun _ => []⟩).isNone = true := by decide
 
+/-! ## round 6, second increment — data files that do not exist
+
+`openX` / `retrieveX` / `presentAppend` / `presentTruncate` (`Model/Freezer.lean`) carry the list
+`present` of the data files that exist.  `build` creates (`create(true)`) the files of the index
+entries its repair loop visits (`touchedBy`); `preopen` then fails iff some id in
+`tail_id..head_id` has no file; a failed open leaves the INDEX empty (build failure) or repaired
+(preopen failure).  The raw enumeration of stream `freezer` now omits files (each data file is
+absent or has length 0..3) and follows every failed open by what it left and a second open. -/
+
+theorem preopenFails_iff (present touched : List Nat) (t hd : Nat) :
+    preopenFails present touched t hd = true ↔
+      ∃ id, t ≤ id ∧ id < hd ∧ id ∉ present ∧ id ∉ touched := by
+  unfold preopenFails
+  rw [List.any_eq_true]
+  constructor
+  · rintro ⟨id, hm, hp⟩
+    simp only [Bool.and_eq_true, decide_eq_true_eq, Bool.not_eq_true', List.contains_eq_mem,
+      decide_eq_false_iff_not] at hp
+    exact ⟨id, hp.1.1, List.mem_range.mp hm, hp.1.2, hp.2⟩
+  · rintro ⟨id, h1, h2, h3, h4⟩
+    refine ⟨id, List.mem_range.mpr h2, ?_⟩
+    simp only [Bool.and_eq_true, decide_eq_true_eq, Bool.not_eq_true', List.contains_eq_mem,
+      decide_eq_false_iff_not]
+    exact ⟨⟨h1, h3⟩, h4⟩
+
+/-- **The decision table with absent files.**  `FreezerFiles::open` fails exactly when `build`
+    fails (`open_fails_iff`: INDEX of 1..11 bytes, or no entry fits) or when, after `build`, some
+    data file with an id from the first index entry's up to (not including) the head's does not
+    exist and was not created by the repair loop. -/
+theorem open_fails_iff_with_absent_files (cap : Nat) (d : Disk) (present : List Nat) :
+    (openX cap d present).h = none ↔
+      openL cap d = none ∨
+      ∃ h d' id, openL cap d = some (h, d') ∧
+        tailIdOf d' ≤ id ∧ id < h.headId ∧
+        id ∉ present ∧ id ∉ touchedBy d := by
+  unfold openX
+  cases ho : openL cap d with
+  | none =>
+    simp only [true_or, iff_true]
+    split <;> rfl
+  | some r =>
+    obtain ⟨h, d'⟩ := r
+    simp only [reduceCtorEq, false_or]
+    by_cases hp : preopenFails present (touchedBy d) (tailIdOf d') h.headId = true
+    · rw [if_pos hp]
+      simp only [true_iff]
+      obtain ⟨id, h1, h2, h3, h4⟩ := (preopenFails_iff _ _ _ _).mp hp
+      exact ⟨h, d', id, rfl, h1, h2, h3, h4⟩
+    · rw [if_neg hp]
+      simp only [reduceCtorEq, false_iff]
+      rintro ⟨h2, d2, id, heq, h1, h2', h3, h4⟩
+      simp only [Option.some.injEq, Prod.mk.injEq] at heq
+      obtain ⟨rfl, rfl⟩ := heq
+      exact hp ((preopenFails_iff _ _ _ _).mpr ⟨id, h1, h2', h3, h4⟩)
+
+/-- when every file below the head exists, `open` is the open of the theorems above (same handle,
+    same disk): the missing-file failure needs a missing file BELOW the head -/
+theorem openX_eq_openL_when_files_exist {cap : Nat} {d d' : Disk} {h : Handle} {present : List Nat}
+    (ho : openL cap d = some (h, d')) (hp : ∀ id, id < h.headId → id ∈ present) :
+    (openX cap d present).h = some h ∧ (openX cap d present).d = d' := by
+  unfold openX
+  rw [ho]
+  simp only
+  have : ¬ preopenFails present (touchedBy d) (tailIdOf d') h.headId = true := by
+    intro hf
+    obtain ⟨id, _, h2, h3, _⟩ := (preopenFails_iff _ _ _ _).mp hf
+    exact h3 (hp id h2)
+  rw [if_neg this]
+  exact ⟨rfl, rfl⟩
+
+/-- an append keeps "every file up to the head exists": a rollover creates the next file -/
+theorem present_after_append (cap max : Nat) (h : Handle) (d : Disk) (x : Bytes) (present : List Nat)
+    (hp : ∀ id, id ≤ h.headId → id ∈ present) :
+    ∀ id, id ≤ (appendL cap max h d x).1.headId → id ∈ presentAppend max h x present := by
+  intro id hid
+  have hhead : (appendL cap max h d x).1.headId =
+      if h.headBytes + x.length > max then h.headId + 1 else h.headId := by
+    simp only [appendL, append]
+  rw [hhead] at hid
+  unfold presentAppend
+  by_cases hr : h.headBytes + x.length > max
+  · rw [if_pos hr] at hid
+    by_cases hc : present.contains (h.headId + 1) = true
+    · have : ¬ (h.headBytes + x.length > max ∧ (!present.contains (h.headId + 1)) = true) := by
+        intro hh; rw [hc] at hh; exact absurd hh.2 (by decide)
+      rw [if_neg this]
+      by_cases he : id = h.headId + 1
+      · rw [he]; simpa using hc
+      · exact hp id (by omega)
+    · have : h.headBytes + x.length > max ∧ (!present.contains (h.headId + 1)) = true := by
+        simp at hc; simp [hr, hc]
+      rw [if_pos this]
+      by_cases he : id = h.headId + 1
+      · simp [he]
+      · exact List.mem_append_left _ (hp id (by omega))
+  · rw [if_neg hr] at hid
+    have : ¬ (h.headBytes + x.length > max ∧ (!present.contains (h.headId + 1)) = true) := by
+      simp [hr]
+    rw [if_neg this]
+    exact hp id hid
+
+/-- a fresh directory: `open` creates data file 0 and nothing is missing afterwards; an INDEX of
+    two entries in files 0 and 1 with file 0 MISSING: `build` creates file 1, `preopen` fails on
+    file 0, and so does every later open; with file 0 present (empty) it opens -/
+example : (let r := openX 2 emptyDisk []
+           (r.h.map (·.number), r.present)) = (some 1, [0]) ∧
+    (let r := openX 2 ⟨[⟨0, 0⟩, ⟨1, 0⟩], 0, fun _ => []⟩ []
+     let r2 := openX 2 r.d r.present
+     (r.h.isNone, r.present, r.d.idx.length, r2.h.isNone)) = (true, [1], 2, true) ∧
+    (let r := openX 2 ⟨[⟨0, 0⟩, ⟨1, 0⟩], 0, fun _ => []⟩ [0]
+     (r.h.map (·.number), r.present)) = (some 2, [0, 1]) := by decide
+
 /-! ## round 6 — power loss: data files OTHER than the head may be short
 
 `Freezer::freeze` ends with `sync_all` of the head data file and the INDEX only; a data file that
@@ -1445,5 +1557,71 @@ example : ((openTop demoCfg emptyDisk).bind fun s0 => runTop demoCfg s0
      .freezeRace 3 5 (serve branchB 3) noStop]).map demoView =
     some (5, some 24, [(0, 0), (0, 7), (0, 14), (1, 8), (1, 14)], .some [23, 12, 3, 1, 5, 5, 5]) := by
   decide
+
+/-! ## round 6, second increment — the `Freezer` layer with the exact LRU
+
+`freezeL` / `truncateTopL` / `openTopL` / `retrieveTopL` (`Model/FreezerTop.lean`) are what the `top`
+driver runs; stream `top` compares `Freezer::verif_cached_ids` after every operation and after the
+oracle's reads.  They refine the same specification as the plain operations and keep, in addition,
+"no cached handle above the head". -/
+
+/-- `freeze` with the exact LRU appends exactly what the plain `freeze` appends (`specRun`), returns
+    the same `Ok`/`Err`, and keeps every cached handle at or below the head -/
+theorem freezeL_refines_spec (cap : Nat) {c : Cfg} (ok : c.Ok) {s : Top} {chain : List Block}
+    (hi : TopInv c s chain) (thr : Nat) (get : Nat → Option Block) (stopped : Nat → Bool) :
+    ∃ new, TopInv c (freezeL cap c s thr get stopped).1 (chain ++ new) ∧
+      Holds c (freezeL cap c s thr get stopped).1 (chain ++ new) ∧
+      TopInv c (freeze c s thr get stopped).1 (chain ++ new) ∧
+      ((freezeL cap c s thr get stopped).2 = (freeze c s thr get stopped).2) := by
+  obtain ⟨h1, h2⟩ := freezeL_spec cap hi thr get stopped
+  obtain ⟨p1, p2⟩ := freeze_spec hi thr get stopped
+  exact ⟨_, h2, holds_of_inv ok h2, p2, by rw [h1, p1]⟩
+
+/-- `truncate` with the exact LRU: keeps exactly blocks `1..k` (no-op outside `1 ≤ k < count`), and
+    no cached handle is left above the new head -/
+theorem truncateTopL_spec (cap : Nat) {c : Cfg} (ok : c.Ok) {s : Top} {chain : List Block}
+    (hi : TopInv c s chain) (hc : CacheOk ⟨s.h, s.d⟩) (k : Nat) :
+    (1 ≤ k ∧ k < chain.length →
+      ∃ s', truncateTopL cap c s k = some s' ∧ TopInv c s' (chain.take k) ∧ CacheOk ⟨s'.h, s'.d⟩) ∧
+    (¬ (1 ≤ k ∧ k < chain.length) → truncateTopL cap c s k = some s) := by
+  have hnum := hi.number
+  constructor
+  · intro ⟨h1, h2⟩
+    obtain ⟨s1, items', hst, hinv, hc1, hspec⟩ :=
+      lru_step_inv cap 0 ⟨s.h, s.d⟩ (chain.map (stored c)) (.truncate k) ⟨hi.good, hi.handle⟩ hc
+    simp only [stepL, Option.some.injEq] at hst
+    subst hst
+    have hit : items' = (chain.take k).map (stored c) := by
+      have : items' = if 1 ≤ k ∧ k < (chain.map (stored c)).length then (chain.map (stored c)).take k
+          else chain.map (stored c) := hspec
+      rw [this, if_pos (by simpa using ⟨h1, h2⟩), List.map_take]
+    subst hit
+    obtain ⟨b, hb⟩ : ∃ b, chain[k - 1]? = some b :=
+      ⟨chain[k - 1]'(by omega), List.getElem?_eq_getElem _⟩
+    have hb' : (chain.take k)[k - 1]? = some b := by
+      rw [List.getElem?_take]; simp [hb]; omega
+    have hr := readBlock_stored ok hinv.1 hinv.2 k b h1 hb'
+    have hg : k > 0 ∧ k + 1 < s.h.number := by omega
+    unfold truncateTopL truncateFromL
+    rw [if_pos hg]
+    simp only at hr ⊢
+    rw [hr]
+    refine ⟨_, rfl, ⟨hinv.1, ⟨hinv.2.1, hinv.2.2⟩, hi.linked.take k, ?_⟩, ?_⟩
+    · show some b = _
+      rw [getLast?_eq_getElem?]
+      have : (chain.take k).length - 1 = k - 1 := by simp; omega
+      rw [this, hb']
+    · -- the promoted / inserted handle is the new head's file or was cached
+      intro id hid
+      have hid' : id ∈ retrieveCache cap (truncateL cap s.h s.d k).1 (truncateL cap s.h s.d k).2 k := hid
+      obtain ⟨s2, _, hst2, _, hc2, _⟩ := lru_step_inv cap 0
+        ⟨(truncateL cap s.h s.d k).1, (truncateL cap s.h s.d k).2⟩ _ (.retrieve k) hinv hc1
+      simp only [stepL, Option.some.injEq] at hst2
+      subst hst2
+      exact hc2 id hid'
+  · intro hn
+    have hg : ¬ (k > 0 ∧ k + 1 < s.h.number) := by omega
+    unfold truncateTopL truncateFromL
+    rw [if_neg hg]
 
 end CkbVerif.C09
